@@ -194,7 +194,7 @@ def _wrap(name, orig, kind, describe):
                 r.fp = D.content_fingerprint(self)
                 return ret
             compare = ops.pop("compare", True)
-            fp_now = D.state_fingerprint(self)
+            fp_now = r.book.epoch(self)
             kq = ops.get("k", "none")
             if ops["op"] == "Query":
                 if kq in ("qp", "qpgv"):
@@ -214,7 +214,7 @@ def _wrap(name, orig, kind, describe):
                     ops["rewritten"] = ("mesh", "tp", "tdos", "pdos", "td")
             elif ops["op"] == "InitRD":
                 g = self._random_displacements
-                r.book.rd[id(g)] = D.state_fingerprint(self, ("fc", "mass"))
+                r.book.rd[id(g)] = r.book.epoch(self, ("fc", "mass"))
                 r.book.keep.append(g)
                 r.rd_call = (a, k)
             ev = _event(r, **ops)
